@@ -40,7 +40,6 @@ use std::sync::{Arc, Mutex};
 use trippy_core::verif::StateConfig;
 use trippy_core::{CompletionReason, ProbeStatus, Round, State, TimeToLive, Tracer};
 
-const VERIF_DIR: &str = "/verif";
 
 /// What the reader threads do.
 #[derive(Debug, Clone, PartialEq, Eq)]
@@ -493,6 +492,8 @@ fn minimise(w: &Workload, sig: &str, dir: &str) -> Workload {
 }
 
 fn run_check(tier: &str, batch_seed: u64) -> i32 {
+    #[allow(non_snake_case)]
+    let VERIF_DIR = simcore::verif_dir();
     let started = std::time::Instant::now();
     let findings = match Findings::load(&format!("{VERIF_DIR}/known-findings.jsonl")) {
         Ok(f) => f,
@@ -641,6 +642,8 @@ fn run_check(tier: &str, batch_seed: u64) -> i32 {
 }
 
 fn run_replay(path: &str) -> i32 {
+    #[allow(non_snake_case)]
+    let VERIF_DIR = simcore::verif_dir();
     let Ok(text) = std::fs::read_to_string(path) else {
         eprintln!("harness error: cannot read {path}");
         return EXIT_HARNESS;
